@@ -749,8 +749,13 @@ func Shrink(opt Options, idx int) int {
 	ctx2 := NewCtx(opt.Prop, tol, nil)
 	e.Execute(best, ctx2)
 	if ctx2.Violation == nil || ctx2.Violation.Signature != sig {
-		fmt.Fprintf(os.Stderr, "HARNESS: minimised trace lost the violation\n")
-		return 2
+		// The minimiser's candidates ran in this process one after another;
+		// if the code under test keeps state between executions a candidate
+		// can fail here and not again. Fall back to the trace as generated
+		// (the fresh-process replay decides whether it stands).
+		fmt.Fprintf(os.Stderr, "NOTE: the minimised trace lost the violation when executed again; writing the trace as generated\n")
+		best, minimised = tr, false
+		ctx2 = ctx
 	}
 	raw, err := json.Marshal(best)
 	if err != nil {
